@@ -296,10 +296,17 @@ def unit_connection_made():
         path = ctx.new_path()
         pr = _proto(ctx, path)
         ctx.cover('pre_satisfiable', path)
+        # the disconnect observer and the queue the constructor made are the ones requests made *before* the connection hold
+        path.heap[('f', pr.oid, '_when_disconnected')] = VOpaque('observer', 710)
+        fields0 = {k: v for k, v in path.heap.items() if k[0] == 'f' and k[1] == pr.oid}
         for p, r in _call(ctx, path, pr, 'connectionMade'):
             if isinstance(r, Raise):
                 ctx.oblige('no_exception', p, B(False))
                 continue
+            fields1 = {k: v for k, v in p.heap.items() if k[0] == 'f' and k[1] == pr.oid}
+            ctx.oblige('frame.connecting_replaces_no_protocol_state', p,
+                       B(set(fields1) == set(fields0) and all(fields1[k] is fields0[k] for k in fields0)),
+                       clause='every request to be told about disconnection, made before or after the loss (also before the transport is attached), is notified exactly once')
             q = ctx.models.glog(p, 'queued')
             chain = ctx.models.glog(p, 'chain')
             ok = len(q) == 1 and concrete_of(q[0][0]) == (True, 'PROTOCOLINFO 1')
